@@ -154,6 +154,7 @@ static inline bool fault_is_internal(int k) { return k == F_ALLOCFAIL || k == F_
 struct Op {
     int kind = 0;
     uint32_t dt = 0; // ms since previous op
+    int only = -1;   // deliver the frames of this op to this node only (-1: every node on the segment)
     int64_t a[8] = {0, 0, 0, 0, 0, 0, 0, 0};
     Bytes blob;
     std::vector<Fault> f;
